@@ -529,6 +529,7 @@ func (f *frame) unop(x *ssa.UnOp, st *State) bool {
 		f.setReg(x, "(bvnot "+v.T+")")
 	case token.ARROW: // receive
 		ch := v
+		f.recvObligations(x, ch, st)
 		et := ch.Ty.Underlying().(*types.Chan).Elem()
 		n := f.regName(x)
 		if g.declared[n] {
@@ -788,6 +789,7 @@ func (f *frame) sliceOp(x *ssa.Slice, st *State) bool {
 		if g.isFresh(l.Idx) {
 			g.markFresh(rv.T)
 		}
+		f.ssetSliceLit(x, rv)
 	default:
 		g.errorf("slice of %s", base.Ty)
 		f.havocReg(x, st)
@@ -897,6 +899,48 @@ func (f *frame) selectOp(x *ssa.Select, st *State) bool {
 	g.assignArr(st.heap, "G!chan!len", "Int", newLen)
 	f.regs[x] = Val{Ty: x.Type(), Tup: tup}
 	return true
+}
+
+// recvObligations: contract clauses `recv N:` are proved at the N-th receive of the function (SSA order).
+func (f *frame) recvObligations(x *ssa.UnOp, ch Val, st *State) {
+	g := f.g
+	var con *Contract
+	if f.top {
+		con = f.con
+	} else {
+		con = g.W.db.Contracts[g.W.relName(f.fn)]
+	}
+	if con == nil || len(con.RecvObl) == 0 {
+		return
+	}
+	n := 0
+	for _, b := range f.fn.Blocks {
+		for _, in := range b.Instrs {
+			if u, ok := in.(*ssa.UnOp); ok && u.Op == token.ARROW {
+				n++
+				if u == x {
+					goto found
+				}
+			}
+		}
+	}
+found:
+	env := &Env{g: g, vars: map[string]Val{"$ch": ch}, heap: st.heap, old: f.entry}
+	f.bindParams(env)
+	env.lookup = f.localsAt(f.curBlock)
+	for i, cl := range con.RecvObl[n] {
+		t, err := g.trBool(cl.E, env)
+		name := f.oblName(fmt.Sprintf("recv%d:%s", n, clauseLabel(cl, i)))
+		if err != nil {
+			g.errorf("%s: %v", name, err)
+			t = "false"
+		}
+		g.addObl("call-pre", name, f.clauseProps(cl), st.reach, t, nil, cl.Src, x.Pos())
+	}
+	if f.recvSeen == nil {
+		f.recvSeen = map[int]bool{}
+	}
+	f.recvSeen[n] = true
 }
 
 // recvHook: facts assumed of received values (contract clause `onrecv`, listed as an assumption).
